@@ -832,6 +832,31 @@ func (w *World) AssumeScan() map[string]int {
 	return out
 }
 
+// AssumeNames lists, by name, every axiom of the loaded contract files and every function whose contract
+// is trusted rather than verified (the mechanical scan for assumptions that each evidence file carries).
+func (w *World) AssumeNames() (axioms, trusted []string) {
+	for _, l := range w.Lemmas {
+		if l.Assumed {
+			axioms = append(axioms, shortPkg(l.PkgPath)+": "+l.Name)
+		}
+	}
+	for _, c := range w.Contracts {
+		if c.Trusted {
+			trusted = append(trusted, shortPkg(c.PkgPath)+": "+c.Target)
+		}
+	}
+	sort.Strings(axioms)
+	sort.Strings(trusted)
+	return
+}
+
+func shortPkg(p string) string {
+	if i := strings.LastIndex(p, "/"); i >= 0 {
+		return p[i+1:]
+	}
+	return p
+}
+
 // BindingObject describes what a direct FuncMap binding expression denotes:
 // "<pkgpath>.<Name>" or "<pkgpath>.<Name>[<typearg>]".
 func (w *World) BindingObject(c *Contract) string {
